@@ -75,9 +75,63 @@ func concMain(g int) {
 		}
 		lines = append(fl, lines...)
 	}
+	// cold start: before anything has run in this process, one short line of every op kind from all goroutines at once. Whatever
+	// the library sets up on first use (tables, caches, sync.Once-like guards) is set up under contention here; the answers are
+	// compared with the sequential run below, and a goroutine that never returns is a failure.
+	var cold []int
+	{
+		seen := map[string]bool{}
+		for i, l := range lines {
+			t := strings.Fields(l)
+			if len(t) < 2 || len(l) > 600 {
+				continue
+			}
+			k := t[0] + " " + t[1]
+			if !seen[k] {
+				seen[k] = true
+				cold = append(cold, i)
+			}
+		}
+	}
+	coldRes := make([][]string, g)
+	{
+		var cw sync.WaitGroup
+		start := make(chan struct{})
+		for w := 0; w < g; w++ {
+			cw.Add(1)
+			coldRes[w] = make([]string, len(cold))
+			go func(w int) {
+				defer cw.Done()
+				<-start
+				for k := range cold {
+					// all goroutines enter the same line together (a barrier per line): the first use of whatever that line
+					// needs is made by all of them at once
+					coldBarrier(k, g)
+					coldRes[w][k] = runOp(lines[cold[k]])
+				}
+			}(w)
+		}
+		done := make(chan struct{})
+		go func() { cw.Wait(); close(done) }()
+		close(start)
+		select {
+		case <-done:
+		case <-time.After(90 * time.Second):
+			fmt.Printf("conc cold-start: goroutines still blocked after 90 s (first use of the library from %d goroutines at once)\n", g)
+			os.Exit(1)
+		}
+	}
 	seq := make([]string, len(lines))
 	for i, l := range lines {
 		seq[i] = runOp(l)
+	}
+	for w := range coldRes {
+		for k, i := range cold {
+			if coldRes[w][k] != seq[i] {
+				fmt.Printf("conc cold-start mismatches=1\nfirst: %s => at first use under contention %s, sequential %s\n", lines[i], coldRes[w][k], seq[i])
+				os.Exit(1)
+			}
+		}
 	}
 	// shared decoded messages (read-only use from all goroutines)
 	type shared struct {
@@ -448,4 +502,23 @@ func convReadAll(m *nas.Message) string {
 		visitFam(reflect.ValueOf(m.GsmMessage).Elem())
 	}
 	return sb.String()
+}
+
+var (
+	barrierMu   sync.Mutex
+	barrierCond = sync.NewCond(&barrierMu)
+	barrierCnt  = map[int]int{}
+)
+
+// coldBarrier blocks until n goroutines have arrived at step k
+func coldBarrier(k, n int) {
+	barrierMu.Lock()
+	barrierCnt[k]++
+	if barrierCnt[k] >= n {
+		barrierCond.Broadcast()
+	}
+	for barrierCnt[k] < n {
+		barrierCond.Wait()
+	}
+	barrierMu.Unlock()
 }
